@@ -214,9 +214,22 @@ func VerifC07Moves() {
 	var seq []*instruction
 	var sums []vSummary
 	addr := begin
+	pool := []vSummary{
+		{}, {in: []expr.Key{"a"}}, {out: []expr.Key{"a"}}, {store: true},
+		{in: []expr.Key{"b"}, out: []expr.Key{"a"}}, {load: true}, {typ: model.TypeMemOrder},
+	}
+	pool = pool[:sym.Param("pool", 4)]
+	lenPattern := sym.Choose(3)
 	for i := 0; i < n; i++ {
-		s := vSymSummary(false)
-		s.length = 2 + 2*sym.Choose(2)
+		s := pool[sym.Choose(len(pool))]
+		switch lenPattern {
+		case 0:
+			s.length = 4
+		case 1:
+			s.length = 2 + 2*(i%2)
+		default:
+			s.length = 4 - 2*(i%2)
+		}
 		if i == n-1 {
 			s.jumps = sym.Choose(2) == 1
 		}
